@@ -278,10 +278,15 @@ func rvalSx(v reflect.Value) *sx.Node {
 		return n
 	case reflect.Map:
 		n := sx.L(sx.A("m"), typeSx(t), sx.B(v.IsNil()))
-		keys := v.MapKeys()
-		sort.SliceStable(keys, func(i, j int) bool { return keyLess(keys[i], keys[j]) })
-		for _, k := range keys {
-			n.Append(sx.L(rvalSx(k), rvalSx(v.MapIndex(k))))
+		// MapRange, not MapKeys + MapIndex: the value under a NaN key cannot be looked up
+		type kv struct{ k, v reflect.Value }
+		var ents []kv
+		for it := v.MapRange(); it.Next(); {
+			ents = append(ents, kv{it.Key(), it.Value()})
+		}
+		sort.SliceStable(ents, func(i, j int) bool { return keyLess(ents[i].k, ents[j].k) })
+		for _, e := range ents {
+			n.Append(sx.L(rvalSx(e.k), rvalSx(e.v)))
 		}
 		return n
 	case reflect.Pointer:
